@@ -673,6 +673,16 @@ def wire_cases(ctx, n_plain, n_host, n_equal):
     for m, off in equal_pointer_wires(ctx, n_equal):
         yield "from_wire", [8, m, off]
         yield "from_wire_tr", [17, m, off]
+    # every value of the first pointer octet (0xC0..0xFF) x low octet classes: the 14-bit target
+    # uses all six low bits of the first octet, so 0xE0 0x00 points to 0x2000 (beyond these
+    # messages: BadPointer), not to offset 0
+    base = enc([b"ab", b"c", b""])  # a name at offset 0, 7 octets
+    for hi in range(0xC0, 0x100):
+        for lo in (0, 3, 5, 6, 7, 8, 0xFF):
+            ctx.count("wire:pointer-octet-sweep")
+            m = base + bytes([1, 0x78, hi, lo])
+            yield "from_wire", [8, m, len(base)]
+            yield "from_wire_tr", [17, m, len(base)]
 
 
 # ------------------------------------------------------------------ generator 4: compression
@@ -782,25 +792,25 @@ def cases(ctx):
             yield "x_ddd", [5, b"x\\%03dy." % v, [b""]]
 
     # ---- 1. names
-    for _ in range(ctx.n(110, 1700)):
+    for _ in range(ctx.n(80, 1700)):
         n = gen_valid(ctx)
         yield from name_cases(ctx, n)
     for n in ([], [b""], [b"@"], [b"@", b""], [b"."], [b"a.b", b"c"], [b"\\"], [b"\\", b""], [b"\x00"], [b"\xff" * 63] * 3 + [b"\xff" * 61, b""],
               [b"a"] * 127 + [b""], [b"a"] * 127, [b" "], [b"a b", b""], [b'"'], [b"$"], [b"("], [b";", b""]):
         yield from name_cases(ctx, n)
-    for _ in range(ctx.n(160, 2500)):
+    for _ in range(ctx.n(120, 2500)):
         yield "construct_bad", [1, gen_invalid(ctx)]
     for _ in range(ctx.n(70, 1000)):
         yield from succ_cases(ctx)
 
     # ---- 2. text
-    yield from text_cases(ctx, ctx.n(90, 1500), ctx.n(380, 6000))
+    yield from text_cases(ctx, ctx.n(70, 1500), ctx.n(260, 5000))
 
     # ---- 3. wire
-    yield from wire_cases(ctx, ctx.n(90, 1300), ctx.n(330, 5200), ctx.n(4, 10))
+    yield from wire_cases(ctx, ctx.n(70, 1300), ctx.n(260, 5200), ctx.n(4, 10))
 
     # ---- 4. compression
-    for _ in range(ctx.n(230, 3200)):
+    for _ in range(ctx.n(180, 3200)):
         names, origin, pad = compress_case(ctx)
         yield "compress", [7, names, origin, pad]
         yield "compress_rt", [33, names, origin, pad]
